@@ -14,6 +14,7 @@ import os
 import random
 import subprocess
 import sys
+import shlex
 import tempfile
 import shutil
 
@@ -26,6 +27,27 @@ os.environ['WORDSEG_VERIF_BINDIR'] = STUBS
 from wordseg.algos import ag  # noqa: E402
 
 TEXT = ['a b c', 'b a', 'c c a b']
+
+
+def _counter_signature(njobs):
+    """(extra positional arguments, keyword arguments) segment() passes to ParseCounter for this job count"""
+    rec = []
+    real = ag.ParseCounter
+
+    class Recording(real):
+        def __init__(self, nutts, *a, **kw):
+            rec.append((tuple(a), tuple(sorted(kw.items()))))
+            real.__init__(self, nutts, *a, **kw)
+    d = tempfile.mkdtemp(prefix='c15-sig-')
+    ag.ParseCounter = Recording
+    try:
+        ag.segment(list(TEXT), args='-n 2 -x 1 -r 5', nruns=2, njobs=njobs, tempdir=d)
+    except Exception:  # noqa
+        pass
+    finally:
+        ag.ParseCounter = real
+        shutil.rmtree(d, ignore_errors=True)
+    return rec[0] if rec else None
 
 
 def schedule_cases(ck):
@@ -53,9 +75,27 @@ def schedule_cases(ck):
         for t in order:
             s += [t] * ks[t]
         scheds.append(('3 threads %r prefixes %r' % (order, ks), 3, s))
+    # the counter as segment() itself builds it, for every kind of job count joblib accepts (negative ones mean "all the
+    # processors but ..."): the constructor arguments segment() uses are recorded and the single-preemption schedules are
+    # replayed on counters built with them
+    factories = [('ParseCounter(2)', lambda: ag.ParseCounter(2))]
+    seen_sig = {((), ())}
+    import joblib
+    for nj in (2, 3, -1, -2):
+        if joblib.effective_n_jobs(nj) <= 1:
+            continue          # the runs of such a call are not concurrent: its counter needs no protection
+        sig = _counter_signature(nj)
+        if sig is not None and sig not in seen_sig:
+            seen_sig.add(sig)
+            factories.append(('the counter of segment(njobs=%d): ParseCounter(n%s)' % (nj, ''.join(', %r' % (a,) for a in sig[0]) + ''.join(', %s=%r' % kv for kv in sig[1])),
+                              lambda sig=sig: ag.ParseCounter(2, *sig[0], **dict(sig[1]))))
+    ck.cov['counter_constructions'] = [f[0] for f in factories]
+    single = [sc for sc in scheds if 'preempt thread 0' in sc[0]]
     bad = []
-    for name, nth, s in scheds:
-        pc = ag.ParseCounter(2)
+    for fname, factory in factories:
+      for name, nth, s in (scheds if fname == 'ParseCounter(2)' else single):
+        name = name if fname == 'ParseCounter(2)' else name + ' [' + fname + ']'
+        pc = factory()
         ps = [parses2[i % 2] for i in range(nth)]
         fns = [(lambda p=p: pc.update(p)) for p in ps]
         sched.run_schedule(fns, s)
@@ -77,15 +117,16 @@ def stub_lines(args, test):
     try:
         tf = os.path.join(d, 'test.ylt')
         open(tf, 'w', encoding='utf8').write('\n'.join(test) + '\n')
-        r = subprocess.run([os.path.join(STUBS, 'ag'), 'grammar'] + args.split() + ['-u', tf, '-c', 'Colloc0'],
+        r = subprocess.run([os.path.join(STUBS, 'ag'), 'grammar'] + shlex.split(args) + ['-u', tf, '-c', 'Colloc0'],
                            input=b'', capture_output=True)
         return r.stdout.decode('utf8').split('\n')[:-1]
     finally:
         shutil.rmtree(d, ignore_errors=True)
 
 
-def segment_case(ck, n, x, seed, ignore, nruns, family, njobs=1):
-    args = ('-n %d ' % n if n is not None else '') + ('-x %d ' % x if x is not None else '') + '-r %d' % seed
+def segment_case(ck, n, x, seed, ignore, nruns, family, njobs=1, extra=''):
+    # extra: further options AFTER the counts and the seed (file names that spell -n9, -x7, -r ...)
+    args = ('-n %d ' % n if n is not None else '') + ('-x %d ' % x if x is not None else '') + '-r %d' % seed + extra
     nn, xx = (2000 if n is None else n), (1 if x is None else x)
     emitted = len(range(0, nn, xx)) + 1
     runs = [stub_lines(args.replace('-r %d' % seed, '-r %d' % (seed + i)), TEXT) for i in range(nruns)]
@@ -126,7 +167,7 @@ def segment_case(ck, n, x, seed, ignore, nruns, family, njobs=1):
             if out[1][i] != min(k2 for k2, v in c.items() if v == best):
                 return 'utterance %d: tie not broken independently of arrival order' % i
         return None
-    return dict(op=1502, arg=[len(TEXT), s2j(args), ignore, [text2j(r) for r in runs]], site='ag.segment',
+    return dict(op=1502, arg=[len(TEXT), [s2j(t) for t in shlex.split(args)], ignore, [text2j(r) for r in runs]], site='ag.segment',
                 desc={'args': args, 'ignore_first_parses': ignore, 'nruns': nruns, 'njobs': njobs, 'family': family},
                 impl=impl, dec=lambda w: decode_result(w, j2text), oracle=oracle,
                 nontrivial=lambda m: True)
@@ -173,7 +214,7 @@ def counter_case(rng):
             if pc.most_common() != out[1]:
                 return 'most_common depends on the arrival order of the parses'
         return None
-    return dict(op=1502, arg=[nutts, s2j('-n 1 -x 1'), 0, [text2j(r) for r in runs]], site='ag.ParseCounter',
+    return dict(op=1502, arg=[nutts, [s2j(t) for t in '-n 1 -x 1'.split()], 0, [text2j(r) for r in runs]], site='ag.ParseCounter',
                 desc={'parses': parses, 'family': 'counter'}, impl=impl, dec=lambda w: decode_result(w, j2text), oracle=oracle,
                 nontrivial=lambda m: True)
 
@@ -251,6 +292,10 @@ def main():
     cases.append(segment_case(ck, None, 400, 5, -1, 1, 'default-n'))
     cases.append(segment_case(ck, 6, None, 5, -2, 2, 'default-x', njobs=2))
     cases.append(segment_case(ck, 7, 2, 9, -2, 4, 'four-runs', njobs=4))
+    # file-valued options whose names spell the wrapper's own options: the counts and the seed are those given, not those in the names
+    cases.append(segment_case(ck, 6, 2, 11, -2, 2, 'file-names', extra=' -F log-n9-x7-r.txt'))
+    cases.append(segment_case(ck, 5, None, 3, 1, 3, 'file-names', njobs=2, extra=" -G 'out -n 40 -x 9/g-r77.lt'"))
+    cases.append(segment_case(ck, None, 500, 8, -1, 1, 'file-names', extra=' -A parses-new-x.prs'))
     # the fixed seed 0 (run i works with seed 0 + i, like any other seed), for several job counts
     for nj in (1, 3):
         cases.append(segment_case(ck, 6, 2, 0, -2, 3, 'seed-zero', njobs=nj))
